@@ -39,5 +39,31 @@ pub proof fn lemma_manifest_fits_receive_buffer(n4: int, n6: int)
 //@    r.1@.len() == MAX_FDS_OUT,                           // [fd-array-is-MAX_FDS_OUT]
 //@end
 
+// ---- the consistency guard of receive_listeners: a consistent message with up to MAX_FDS_OUT listeners is accepted
+#[verifier::external_body] pub struct IoError { _p: () }
+#[verifier::external_body] pub struct AddrParseError { _p: () }
+#[verifier::external_body] pub struct DecodeError { _p: () }
+//@global-subst "std::io::Error" => "IoError"
+//@item command/src/scm_socket.rs enum ScmSocketError
+// `a.checked_add(b).and_then(|s| s.checked_add(c)).and_then(|s| s.checked_add(d))` (closures): the checked sum (std)
+#[verifier::external_body]
+pub fn verif_checked_sum4(a: usize, b: usize, c: usize, d: usize) -> (r: Option<usize>)
+    ensures match r { Some(t) => t as int == a + b + c + d, None => a + b + c + d > usize::MAX as int }
+{ unimplemented!() }
+
+//@fn command/src/scm_socket.rs ScmSocket::receive_listeners
+//@  rename receive_listeners_guard
+//@  sig "&self" => "http_len: usize, tls_len: usize, tcp_len: usize, udp_len: usize, file_descriptor_length: usize, received_fds: [i32; MAX_FDS_OUT]"
+//@  sig "Result<Listeners, ScmSocketError>" => "Result<usize, ScmSocketError>"
+//@  ret r
+//@  cut "let mut buf = vec![0; MAX_BYTES_OUT];" .. "let total = http_len" => ""
+//@  subst "http_len\n            .checked_add(tls_len)\n            .and_then(|s| s.checked_add(tcp_len))\n            .and_then(|s| s.checked_add(udp_len))" => "verif_checked_sum4(http_len, tls_len, tcp_len, udp_len)"
+//@  cut "let mut http_addresses = parse_addresses(&listeners_count.http)?;" .. "\n    }" => "Ok(total)"
+//@  ensures
+//@    (http_len + tls_len + tcp_len + udp_len <= MAX_FDS_OUT && http_len + tls_len + tcp_len + udp_len <= file_descriptor_length)
+//@        ==> (r matches Ok(t) && t == http_len + tls_len + tcp_len + udp_len),                      // [a-consistent-manifest-up-to-the-documented-fd-limit-is-accepted]
+//@    r matches Ok(t) ==> t == http_len + tls_len + tcp_len + udp_len && t <= MAX_FDS_OUT && t <= file_descriptor_length, // [an-accepted-manifest-is-backed-by-received-fds]
+//@end
+
 } // verus!
 fn main() {}
